@@ -28,6 +28,7 @@ type HarnessCfg struct {
 	MaxSteps int64          `json:"max_steps"`
 	Note     string         `json:"note"`
 	ThoroughOnly bool       `json:"thorough_only"`
+	NoTrace  bool           `json:"no_trace"`
 }
 
 type CheckCfg struct {
@@ -245,10 +246,13 @@ func checkMain(args []string) int {
 		if *tier == "thorough" {
 			traceEvery = 4
 		}
+		if h.NoTrace {
+			traceEvery = 0 // over-approximating harness (abstracted arithmetic): models are not replayable
+		}
 		sum := pool.explore(h.ID, params, ExploreOpts{TraceEvery: traceEvery, Known: kp, MaxSteps: h.MaxSteps, Seed: int64(seed)})
 		fmt.Fprintln(os.Stderr, sum)
 		sums = append(sums, sum)
-		bounds[h.ID] = params
+		bounds[fmt.Sprintf("%s#%d", h.ID, len(bounds))] = params
 		totalPaths += sum.Paths
 		totalDec += sum.Decisions
 		if sum.EngineErrs > 0 {
@@ -454,7 +458,7 @@ func checkMain(args []string) int {
 			"bounds":                        bounds,
 			"functions_encoded":             libFuncs,
 			"source_hash":                   srcHash(files),
-			"queries":                       map[string]interface{}{"smt": st.St.Queries, "decided_by_current_model": st.St.ModelHits, "fallback_portfolio": st.St.Fallbacks, "unknown": st.St.Unknowns, "assertions_checked": st.St.AssertsChk, "assertions_inherited_from_prefix": st.St.AssertsInh, "region_decisions": st.St.Regions},
+			"queries":                       map[string]interface{}{"smt": st.St.Queries, "decided_by_current_model": st.St.ModelHits, "fallback_portfolio": st.St.Fallbacks, "unknown": st.St.Unknowns, "assertions_checked": st.St.AssertsChk, "assertions_inherited_from_prefix": st.St.AssertsInh, "region_decisions": st.St.Regions, "fastpath_implied": st.St.FastImplied, "fastpath_forks": st.St.FastForks},
 			"solver_time_s":                 st.SolverS,
 			"ssa_steps":                     st.St.Steps,
 			"reach_labels":                  reachAll,
